@@ -86,7 +86,7 @@ def run(module, cfg=None, workers=1, env=None, timeout=1800, simulate=None, dept
     Raises TLCError if TLC could not complete its job (anything except a clean
     pass or a reported property violation)."""
     meta = scratch_dir("tlcmeta_")
-    cmd = ["java", "-XX:+UseSerialGC" if workers == 1 else "-XX:+UseParallelGC", "-Xmx" + heap]
+    cmd = ["java", "-XX:+UseSerialGC" if workers == 1 else "-XX:+UseParallelGC", "-Xmx" + heap, "-Xss128m"]
     if workers != 1:
         cmd.append("-XX:ParallelGCThreads=%d" % max(2, min(8, int(workers) // 2)))
     if dfs:
@@ -122,7 +122,8 @@ def run(module, cfg=None, workers=1, env=None, timeout=1800, simulate=None, dept
         shutil.rmtree(meta, ignore_errors=True)
     res = Result(p.stdout, p.returncode, time.time() - t0)
     if not res.ok and res.invariant_violated is None:
-        tail = "\n".join(p.stdout.splitlines()[-40:])
+        errs = [ln for ln in p.stdout.splitlines() if ln.startswith("Error:") or "Exception" in ln][:8]
+        tail = "\n".join(errs + ["..."] + p.stdout.splitlines()[-25:])
         raise TLCError("TLC failed on %s (rc=%s):\n%s" % (module, p.returncode, tail))
     return res
 
